@@ -159,9 +159,9 @@ fn distinct_measure(prop: &str) -> &'static str {
 fn components() -> serde_json::Value {
     json!({
         "real_code": ["rooc (current /repo working tree, feature rooc_verif)", "microlp 0.5.0", "good_lp", "clarabel", "sprs"],
-        "stub": ["web-time 1.1.0 -> /verif/sim/web-time-sim (thread-local simulated clock read by microlp)"],
+        "stub": ["web-time 1.1.0 -> /verif/sim/web-time-sim (thread-local simulated clock read by microlp)", "clock_gettime(CLOCK_MONOTONIC) defined by the harness executable: std::time::Instant reads the same simulated clock on simulated threads (Clarabel's timers; any std clock a change to rooc reads)"],
         "reference_model": ["exact rational oracle (Q over i128): integer enumeration + Fourier-Motzkin", "exact rational tableau", "exact per-variable feasible ranges by disjunctive expansion"],
-        "real_clock_result_irrelevant": ["clarabel timers (std::time::Instant, only fills solve_time)"],
+        "real_clock": ["none on simulated threads; SystemTime (CLOCK_REALTIME) is not simulated and not read by rooc or its solvers"],
     })
 }
 
@@ -389,7 +389,7 @@ fn check(prop: &str, tier: Tier) -> CheckOutcome {
             "the generated input class is small and dyadic/decimal so that the exact oracle decides it and no non-zero quantity sits inside a solver tolerance",
             "the exact oracle (integer enumeration + Fourier-Motzkin over i128 rationals) is correct; overflow panics and is reported as a harness error",
             "microlp's behaviour under a limit depends on the clock only through `now() >= deadline` (checked per run by the abstraction cross-check, exit 2 on mismatch)",
-            "Clarabel's own timers read the real clock; they only fill solve_time and cannot influence a result",
+            "std::time::Instant reaches the kernel through the clock_gettime symbol (checked by `./check selftest`); a clock read by raw syscall or rdtsc would escape the seam",
         ],
         "wall_s": wall,
         "violations": violation_lines,
